@@ -10,7 +10,9 @@
 //
 // Oracle (Go side): exact equality after the round trip.  Model (Coq side): the wire bytes of
 // stacks/transforms made of fully modelled elements (hex, base64, XOR-CFB, CBK, B64 shift, DNS)
-// are recomputed by the Gallina model and compared (literal or length + a 64-bit xorshift digest).
+// are recomputed by the Gallina model and compared (literal or length + a 64-bit xorshift digest);
+// for a single CBK element the model of the writer's buffering is driven by the same sequence of
+// Write calls (CCbkW); the exported CBK block functions are compared block by block (CBlock).
 package main
 
 import (
@@ -598,6 +600,8 @@ type stackCase struct {
 	RChunk chunking `json:"reader_chunks"`
 	CChunk chunking `json:"consumer_chunks"`
 	EOFW   bool     `json:"eof_with_data"`
+	// OracleOnly: the case is not handed to the Coq model (quick tier: 64 KiB payloads are costly there)
+	OracleOnly bool `json:"oracle_only,omitempty"`
 }
 
 var wireSeen = map[string]uint64{}
@@ -611,6 +615,7 @@ func runStack(c stackCase) {
 		wire, got []byte
 		stage     = "build"
 		err       error
+		writes    []int64 // the length of every Write call made
 	)
 	func() {
 		defer func() {
@@ -639,6 +644,7 @@ func runStack(c stackCase) {
 				k = len(p)
 			}
 			var n int
+			writes = append(writes, int64(k))
 			if n, err = o.Write(p[:k]); err != nil {
 				return
 			}
@@ -672,7 +678,13 @@ func runStack(c stackCase) {
 		out.Fail(fmt.Sprintf("wrapper stack %s: read back %d bytes that differ from the %d written", name, len(got), len(payload)),
 			"stack-roundtrip:"+stackKinds(c.Stack), c)
 	}
-	if sc, ok := stackCoq(c.Stack, len(payload)); err == nil && ok {
+	if sc, ok := stackCoq(c.Stack, len(payload)); err == nil && ok && len(c.Stack) == 1 && c.Stack[0].Kind == "cbk" &&
+		c.WChunk.Name != "whole" && len(writes) <= 2100 && len(payload) <= 4300 {
+		// the model of the CBK writer's buffering, driven by the same sequence of Write calls
+		e := strings.TrimSuffix(strings.TrimPrefix(sc, "[(ECbk "), ")]")
+		out.Add(fmt.Sprintf("CCbkW %s %s %s %s", e, c.Pay.coq(), vh.ZList64(writes), wireCoq(wire)), "cbk-writer-model", len(payload) > 0, c)
+	}
+	if sc, ok := stackCoq(c.Stack, len(payload)); err == nil && ok && !c.OracleOnly {
 		// one model case per distinct (stack, payload, observed wire)
 		sk := sc + c.Pay.coq()
 		h := hash64(wire)
@@ -1213,8 +1225,9 @@ func main() {
 			if !thorough && e.Kind == "cbk" && e.blockSize() < 64 {
 				continue
 			}
+			oo := !thorough && !(e.Kind == "hex" || (e.Kind == "xor" && len(e.Key) == 16) || (e.Kind == "cbk" && e.CBK[4] == 128))
 			runStack(stackCase{Stack: []elem{e}, Pay: randPay(r, n), WChunk: randChunk(r, e.blockSize()), RChunk: randChunk(r, e.blockSize()),
-				CChunk: chunking{Name: "random", K: 5000, Seed: r.U64()}})
+				CChunk: chunking{Name: "random", K: 5000, Seed: r.U64()}, OracleOnly: oo})
 		}
 	}
 
@@ -1340,6 +1353,29 @@ func main() {
 		}
 	}
 	out.Extra("dns_server_role", transform.VerifC07DNSServer)
+	// how common the recorded CBK key-schedule defect is: keys (A,B,C,D) for which computing the
+	// constants of some block counter 0..30 panics (integer divide by zero in blockIndex)
+	{
+		nk, bad := 4000, 0
+		if thorough {
+			nk = 100000
+		}
+		for i := 0; i < nk; i++ {
+			var k [5]byte
+			copy(k[:], r.Bytes(4))
+			k[4] = 16
+			if _, _, idx, err := crypto.VerifC07CBK(k[0], k[1], k[2], k[3], k[4]); err == nil {
+				for j := range idx {
+					if idx[j].Bad {
+						bad++
+						break
+					}
+				}
+			}
+		}
+		out.Extra("cbk_keys_sampled", nk)
+		out.Extra("cbk_keys_whose_schedule_divides_by_zero", bad)
+	}
 	out.Finish()
 }
 
